@@ -93,6 +93,9 @@ def logp(s):
           - 0.5 * jnp.sum((s["z"] - 2.0) ** 2))
     if "g" in s:      # bounded support: the log-density is NaN for g <= 0 (Gamma(3, 1) written with jnp.log)
         lp = lp + jnp.sum(2.0 * jnp.log(s["g"]) - s["g"])
+    if "f" in s:      # Neal's funnel: strongly varying curvature, trajectories that diverge half-way
+        v, xs = s["f"][0], s["f"][1:]
+        lp = lp - 0.5 * (v / 3.0) ** 2 - 0.5 * jnp.sum(xs ** 2) * jnp.exp(-v) - 0.5 * xs.shape[0] * v
     return lp
 
 
@@ -113,7 +116,7 @@ def make_kernel(name, consts, late=False):
     attributes (the only way to configure a ready-made kernel, e.g. those of dist_reg_mcmc)."""
     target, gamma, kappa, t0, eps0 = consts
     if late:
-        k, tunes, hasmm = make_kernel(name, (0.8 if name in ("hmc", "nuts", "nuts_auto") else 0.234, 0.05, 0.75, 10, eps0))
+        k, tunes, hasmm = make_kernel(name, (0.8 if name in ("hmc", "nuts", "nuts_auto", "nuts_funnel") else 0.234, 0.05, 0.75, 10, eps0))
         k.da_target_accept, k.da_gamma, k.da_kappa, k.da_t0 = target, gamma, kappa, t0
         return k, tunes, hasmm
     kw = dict(da_target_accept=target, da_gamma=gamma, da_kappa=kappa, da_t0=t0)
@@ -131,6 +134,8 @@ def make_kernel(name, consts, late=False):
         return gs.HMCKernel(["x"], initial_step_size=eps0, num_integration_steps=3, **kw), True, True
     if name == "nuts":
         return gs.NUTSKernel(["x"], initial_step_size=eps0, max_treedepth=3, **kw), True, True
+    if name == "nuts_funnel":
+        return gs.NUTSKernel(["f"], initial_step_size=max(eps0, 1.0), max_treedepth=6, **kw), True, True
     if name == "nuts_auto":
         return gs.NUTSKernel(["x"], max_treedepth=3, **kw), True, True
     raise KeyError(name)
@@ -156,6 +161,8 @@ def engine_traces(names, consts, schedule, chains=2, seed=0, chunk_thin=1, late=
             "z": jnp.array([2.5], jnp.float32)}
     if "rw_support" in names:
         init["g"] = jnp.array([0.2], jnp.float32)
+    if "nuts_funnel" in names:
+        init["f"] = jnp.array([0.0, 0.5, -0.5, 0.3, -0.2], jnp.float32)
     b.set_initial_values(init)
     for w in wraps:
         b.add_kernel(w)
